@@ -16,6 +16,15 @@
 // Unscoped(), or lifted for one preloaded relation by a scope function) and the parent value of
 // Association().Find (one record, or a slice of 1-4 records - duplicates and soft-deleted rows
 // included - whose keys share parts crosswise).
+//
+// Every Node also carries a second, non-primary unique key K and relations that reference K instead
+// of the primary key (has-many / belongs-to in all worlds, polymorphic has-many / has-one with
+// `foreignKey:K` in the single-key worlds); K values are preferably the primary key of another node.
+// Joins operations carry 1-8 association joins; a quarter of all operations are derived from a
+// SHARED handle: the first steps of the chain are frozen with Session(&gorm.Session{}) and two
+// queries are derived from that handle - the compared one and a sibling adding joins / preloads /
+// conditions of its own (same relations under other conditions included), derived before or after
+// it and executed before it or not at all.
 package c11
 
 import (
@@ -1691,15 +1700,16 @@ var Engine = &core.Engine{
 	ID:    "C11",
 	Level: "exploration",
 	Rule: "per case one random data graph (raw-SQL inserted) in one of five worlds of the same relation family - key = string | integer | string+string | integer+string | integer+integer (composite worlds 6 of 8 cases) - " +
-		"with self-referential belongs-to/has-many, has-many + belongs-to back, has-one, many2many (composite join keys on both sides), polymorphic has-many and polymorphic has-one on the same table (single-key worlds; the has-one is also joined); the column order differs per world: the models that single-valued relations point to start with an embedded audit struct {DeletedAt, N} | a nullable foreign key | a nullable payload N | DeletedAt | the never-NULL row id (control), N is NULL in about half of the rows, so joined rows with leading NULL columns exist in four worlds; key parts drawn from hostile pools ('_' ',' spaces, 'nil', '0', '', leading zeros, clusters (s1,s2_s3)/(s1_s2,s3) that collide only after joining), " +
+		"with self-referential belongs-to/has-many, has-many + belongs-to back, has-one, many2many (composite join keys on both sides), polymorphic has-many and polymorphic has-one on the same table (single-key worlds; the has-one is also joined); every Node also has a second NON-primary unique key k (never zero, about half of the values are the first primary-key part of ANOTHER node) and relations that reference k instead of the primary key: has-many Extra / belongs-to Patron (`foreignKey:AltK;references:K`, all worlds, value and pointer foreign keys) and polymorphic has-many Shots / has-one Seal (`polymorphic:Owner;foreignKey:K`, single-key worlds; owner_id of a picture holds a primary key or a k of some node whatever its type value), a mismatch on such relations only is signed mismatch:<kind>:non-primary-referenced-key; the column order differs per world: the models that single-valued relations point to start with an embedded audit struct {DeletedAt, N} | a nullable foreign key | a nullable payload N | DeletedAt | the never-NULL row id (control), N is NULL in about half of the rows, so joined rows with leading NULL columns exist in four worlds; key parts drawn from hostile pools ('_' ',' spaces, 'nil', '0', '', leading zeros, clusters (s1,s2_s3)/(s1_s2,s3) that collide only after joining), " +
 		"composite keys also sharing one part with / being the CROSS of two other keys ((a,1),(b,2) next to (a,2)), foreign keys existing / dangling (preferably re-splits or crosses of existing keys) / NULL / partially NULL / zero part, soft-deleted rows in every soft-delete table; each graph is biased by one of four profiles (clean | separator clusters | partial NULL next to the text 'nil' | integer part 0) and the hazards it really carries are measured per relation, so a mismatch is signed composite-key-collision / null-part-vs-nil-text / zero-int-key-part only when that is the single hazard of the relations involved (hazard-free relations must match exactly: signature mismatch:*); x 8 operations: Preload of 1-3 random relation paths of depth 1-3 (conditions as args, map, scope function, scope with Order), Preload(clause.Associations) (+condition, +nested path), " +
-		"Joins/InnerJoins of 1-2 single-valued paths of depth 1-3 (+ON condition) combined with Preloads below/next to them, Association(rel).Find (+conditions) into []T/[]*T " +
+		"Joins/InnerJoins of 1 (half), 2 or 3-8 distinct single-valued paths of depth 1-3 (ON conditions on depth-1 joins that no other joined path runs through) combined with Preloads below/next to them, Association(rel).Find (+conditions) into []T/[]*T " +
 		"on Model(&record) or Model(&[]T) / Model(&[]*T) holding 1-4 records drawn from ALL rows of the table (repeats and soft-deleted records included: only their key values count; expected = set union of the reference rows of the distinct parents); parents into struct (First | Take | Last | Find), []T, []*T, optionally every parent twice in the result (also next to association joins); " +
 		"soft-delete scope: 1/5 of all operations of every kind run under Unscoped() (called first, or last in the chain): soft-deleted parents are then selected and every relation - preloaded at any depth, attached by Joins/InnerJoins (ON clause), returned by Association().Find - must also hold its soft-deleted rows; a Preload condition may be a scope function calling Unscoped() (lifts the scope of that one relation); the deleted_at column of every loaded row is compared with the inserted row; " +
 		"destination fresh or REUSED (2/5 of the struct, 1/6 of the slice destinations, 1/4 of the Association().Find results): it already holds earlier records - a struct holds the record of the row that is read again - whose relation fields carry 1-2 arbitrary rows (rows whose key still matches but that are soft-deleted or excluded by the condition, or rows of another parent): after the call every REQUESTED relation must hold exactly the reference rows; 1/5 of the chains are frozen with Session(&gorm.Session{}) and executed twice, the second execution is compared; " +
-		"a failure that disappears with a fresh destination is signed stale-on-reused-destination:<dest>:<preload|joins|assoc-find>[:<relation kind>[:no-owner-key]], one that disappears on the first execution second-execution-of-session-handle:<kind>, " +
+		"SHARED handle: 1/4 of the other operations (1/2 of those with 3+ joins) split their chain at a random step - with several joins mostly between the joins, half of the time before the last join, so the handle carries 0-7 joins - : base := db.<first steps>.Session(&gorm.Session{}); q := base.<remaining steps>; sib := base.<1-2 joins: a relation q joins itself under another / no ON condition, or another path; 0-2 Preloads: a path q preloads itself under another condition, or another path; Where; Unscoped()>, q and sib derived in either order, sib executed before q or never; q is compared (Association().Find: base := db.Model(parents).Session(..), q/sib := base.Association(rel / same or other rel), sib.Find with another condition); a failure that disappears when the chain is built in one go is signed sibling-on-shared-session-handle:<preload|joins|assoc-find|parents|parents-of-inner-joins>; " +
+		"a failure that disappears with a fresh destination is signed stale-on-reused-destination:<dest>:<preload|joins|assoc-find>[:<relation kind>[:no-owner-key]], one that disappears on the first execution second-execution-of-session-handle:<kind>, one that disappears without the sibling sibling-on-shared-session-handle:*, " +
 		"one that disappears without Unscoped() unscoped:<preload|joins|assoc-find|parents|parents-of-inner-joins>, an Association().Find on several parents that agrees for each parent alone assoc-find-several-parents:<relation kind>[:composite-key] (tried in this order); " +
-		"distinct = (world, operation kind, root, relation paths with condition forms, destination, finisher, reused flag, second-execution flag, duplicate flag, attached-children bucket, Unscoped flag, shape of the Association() parent value, several parents); non-trivial = at least one child row was attached where the reference join expects it",
+		"distinct = (world, operation kind, root, relation paths with condition forms, destination, finisher, reused flag, second-execution flag, duplicate flag, attached-children bucket, Unscoped flag, shape of the Association() parent value, several parents, shared-handle flag); non-trivial = at least one child row was attached where the reference join expects it",
 	Assumptions: []string{
 		"a record whose referenced key parts are ALL zero-valued (0 / '') is never generated as a match target: gorm treats an all-zero key as 'no key' (GetIdentityFieldValuesMap skips it); keys with SOME zero part are generated",
 		"has-one: at most one live child row per owner key (which of several candidates is picked is not fixed by the statement); any number of soft-deleted candidates. Where the soft-delete scope is lifted and a has-one owner has several candidates: a preloaded has-one may hold any ONE of them, and such a relation is never part of a Joins path (the JOIN would multiply the parent row); Association().Find returns all of them",
@@ -1708,7 +1718,9 @@ var Engine = &core.Engine{
 		"a reused destination holds, in its scalar fields, the current column values of the row that is read again (so First(&dest) adds the primary-key condition of that very row); relation fields of a reused STRUCT that the call does not request keep what they held (not fixed by the statement: not compared); elements of reused slices are re-created by gorm and compared like fresh ones",
 		"non-pointer scalar columns are never NULL (gorm leaves a non-pointer field of a reused destination untouched when the column is NULL: plain scanning, not part of this property)",
 		"polymorphic has-one: at most one row per (owner key, type value)",
-		"conditions only mention the payload column v; a condition is only attached to the last segment of a path; Joins ON-conditions only on depth-1 joins; a Preload whose path is (a prefix of) a joined path carries no condition (gorm takes the joined rows)",
+		"conditions only mention the payload column v; a condition is only attached to the last segment of a path; Joins ON-conditions only on depth-1 joins whose relation is not the first segment of another joined path of the same query (gorm writes one JOIN per alias, the first path that needs it decides the ON clause; and it applies the condition of a nested path to every hop); a Preload whose path is (a prefix of) a joined path carries no condition (gorm takes the joined rows); the same path is never joined twice in one query",
+		"queries derived from one handle are only derived after Session(&gorm.Session{}) (gorm's contract for reusing a handle); the sibling's own result is not compared (every role - derived first / second, executed after the other was derived / executed - is taken by the compared query in some case)",
+		"the non-primary key k is unique among all rows of the table (soft-deleted ones included), never zero and never NULL",
 		"SQLite semantics of equality: binary, case- and space-sensitive text comparison; NULL equals nothing",
 		"join-table rows never contain NULL; key columns of parents are never NULL",
 		"order of attached children is not compared (multiset by unique row id u, then every scalar column and nested relation per row)",
